@@ -342,6 +342,11 @@ pub fn explore(scen: &'static Scenario, cfg: &RunCfg) -> RunResult {
                             item.world.check_bad_messages(i, &mut ctx);
                         }
                     }
+                    if item.world.scen.api_probe {
+                        for i in 0..item.world.n() {
+                            item.world.check_api_probe(i, &mut ctx);
+                        }
+                    }
                     if let Some(h) = cfg.state_hook {
                         h(&item.world, &mut ctx);
                     }
